@@ -70,6 +70,25 @@ namespace GeographicLib {
       if (i < 0 || i > 4) throw GeographicErr("bad index");
       return alpha_[i];
     }
+    // IDX1: every ':' takes the next slot of piece[3]; nothing compares the slot count with a constant
+    static real Pieces(const std::string& s) {
+      real piece[] = {0, 0, 0};
+      unsigned npiece = 0;
+      real cur = 0;
+      int k;
+      for (unsigned p = 0; p < s.size(); ++p) {
+        char x = s[p];
+        if (x >= '0' && x <= '9')
+          cur = 10 * cur + (x - '0');
+        else if (x == ':') {
+          k = npiece;
+          piece[k] = cur;
+          npiece = k + 1;
+          cur = 0;
+        }
+      }
+      return piece[0] + piece[1] / 60 + piece[2] / 3600;
+    }
     // X9: the second half of the buffer is filled from the wrong offset when prec > 3
     static void HalfFilled(real x, int prec, std::string& out) {
       if (!(prec >= 0 && prec <= 5)) throw GeographicErr("bad precision");
@@ -117,6 +136,17 @@ namespace GeographicLib {
     void SetScale(real k) { _k0 *= k; }
   private:
     real _sign, _k0, _nrho0;
+  };
+
+  // DZ1: Jn divides by _e2, which is zero for the sphere the constructor accepts; Q tests first
+  class FixtureSphere {
+  public:
+    typedef Math::real real;
+    FixtureSphere(real f, real J2) : _f(f), _e2(f * (2 - f)), _jJ2(J2) {}
+    real Jn(int n) const { return -3 * (1 - n + 5 * n * _jJ2 / _e2) / ((2 * n + 1) * (2 * n + 3)); }
+    real Q() const { return _e2 == 0 ? 1 : _jJ2 / _e2; }
+  private:
+    real _f, _e2, _jJ2;
   };
 
   // I1: a scratch value needed for the potential is overwritten while computing the gradient
